@@ -1173,7 +1173,7 @@ bool P11AttrStartDate::setDefault()
 }
 
 // Update the value if allowed
-CK_RV P11AttrStartDate::updateAttr(Token* /*token*/, bool /*isPrivate*/, CK_VOID_PTR pValue, CK_ULONG ulValueLen, int /*op*/)
+CK_RV P11AttrStartDate::updateAttr(Token* token, bool isPrivate, CK_VOID_PTR pValue, CK_ULONG ulValueLen, int op)
 {
 	// Attribute specific checks
 
@@ -1182,10 +1182,8 @@ CK_RV P11AttrStartDate::updateAttr(Token* /*token*/, bool /*isPrivate*/, CK_VOID
 		return CKR_ATTRIBUTE_VALUE_INVALID;
 	}
 
-	// Store data
-	osobject->setAttribute(type, ByteString((unsigned char*)pValue, ulValueLen));
-
-	return CKR_OK;
+	// Store data (encrypted for private objects, like every other byte string attribute)
+	return P11Attribute::updateAttr(token, isPrivate, pValue, ulValueLen, op);
 }
 
 /*****************************************
@@ -1200,7 +1198,7 @@ bool P11AttrEndDate::setDefault()
 }
 
 // Update the value if allowed
-CK_RV P11AttrEndDate::updateAttr(Token* /*token*/, bool /*isPrivate*/, CK_VOID_PTR pValue, CK_ULONG ulValueLen, int /*op*/)
+CK_RV P11AttrEndDate::updateAttr(Token* token, bool isPrivate, CK_VOID_PTR pValue, CK_ULONG ulValueLen, int op)
 {
 	// Attribute specific checks
 
@@ -1209,10 +1207,8 @@ CK_RV P11AttrEndDate::updateAttr(Token* /*token*/, bool /*isPrivate*/, CK_VOID_P
 		return CKR_ATTRIBUTE_VALUE_INVALID;
 	}
 
-	// Store data
-	osobject->setAttribute(type, ByteString((unsigned char*)pValue, ulValueLen));
-
-	return CKR_OK;
+	// Store data (encrypted for private objects, like every other byte string attribute)
+	return P11Attribute::updateAttr(token, isPrivate, pValue, ulValueLen, op);
 }
 
 /*****************************************
